@@ -160,6 +160,38 @@ pub fn run(ctx: &Ctx) -> i32 {
                 }
             }
         }
+        // long keys (1..400 bytes) and wide nodes (fan-out palette at depth 0 and 1), monotone values
+        for i in 0..ctx.tier.pick(60, 400) {
+            if i % n != shard {
+                continue;
+            }
+            let mut r = Rng::new(ctx.seed, 0x16_10e9 + i as u64);
+            let mut keys: Vec<Vec<u8>> = vec![];
+            if i % 2 == 0 {
+                let alpha = gen::alphabet(&mut r);
+                for _ in 0..(2 + r.usize(12)) {
+                    let l = [1usize, 63, 64, 127, 128, 129, 130, 200, 255, 256, 257, 300, 400][r.usize(13)];
+                    let mut k = r.bytes(l, &alpha);
+                    keys.push(k.clone());
+                    // a sibling that shares a long prefix
+                    let cut = r.usize(k.len());
+                    k.truncate(cut + 1);
+                    k[cut] = k[cut].wrapping_add(1);
+                    keys.push(k);
+                }
+                keys.sort();
+                keys.dedup();
+            } else {
+                let fo = gen::FANOUTS[(i / 2) % gen::FANOUTS.len()];
+                keys = gen::fanout_keys(fo, (i / 22) % 2, i % 4 == 1, i % 8 < 4, &mut r);
+            }
+            let kv = monotone(keys, 1 + i % 5, &mut r);
+            if let Ok(Ok(bytes)) = guard(|| build::build(Front::MapInsert, &kv)) {
+                ev.fps.insert(crate::rng::fnv_u64(0x16_10e9, i as u64));
+                check_map(&kv, &bytes, &mut r, ev, "long keys / wide nodes");
+                ev.count(if i % 2 == 0 { "maps:long-keys" } else { "maps:wide-nodes" });
+            }
+        }
         // random monotone maps (byte-level alphabets, prefix-heavy keys, with and without the empty key)
         let nrand = ctx.tier.pick(3000, 100_000);
         for i in 0..nrand {
@@ -187,9 +219,9 @@ pub fn run(ctx: &Ctx) -> i32 {
         ev,
         Spec {
             level: "exploration",
-            rule: "one evaluation = one get_key(v) + get_key_into(v, prefixed buffer) query compared with the inverse of the model map; maps: ALL 32768 subsets of {a,b}^<=3 (with and without the empty key) x 6 strictly increasing value shapes (0,1,2..; offset+gaps; boundary palette; huge gaps up to ~u64::MAX; random gaps; starting at 1 so an empty key carries a non-zero value) [quick: shapes 5-6 on every 2nd subset], corpora with value = i, 2i+1, i^2+5, random monotone maps over byte-level alphabets and several cache geometries; queries per map: every stored value, +-1, 0, 1, u64::MAX(-1), 20 random; non-trivial = every query; distinct = (map, value), distinct by construction",
+            rule: "one evaluation = one get_key(v) + get_key_into(v, prefixed buffer) query compared with the inverse of the model map; maps: ALL 32768 subsets of {a,b}^<=3 (with and without the empty key) x 6 strictly increasing value shapes (0,1,2..; offset+gaps; boundary palette; huge gaps up to ~u64::MAX; random gaps; starting at 1 so an empty key carries a non-zero value) [quick: shapes 5-6 on every 2nd subset], keys of 1..400 bytes, nodes of every fan-out class up to 256, corpora with value = i, 2i+1, i^2+5, random monotone maps over byte-level alphabets and several cache geometries; queries per map: every stored value, +-1, 0, 1, u64::MAX(-1), 20 random; non-trivial = every query; distinct = (map, value), distinct by construction",
             assumptions: vec!["maps whose values are not strictly increasing are outside the statement and skipped".into(), "the buffer content after get_key_into returned false is unspecified and not judged".into()],
-            floors: vec![("cov:maps-with-empty-key-nonzero-value", 1000), ("cov:maps-with-empty-key-zero-value", 1000), ("queries:present-value", 10_000), ("queries:absent-value", 10_000)],
+            floors: vec![("cov:maps-with-empty-key-nonzero-value", 1000), ("cov:maps-with-empty-key-zero-value", 1000), ("queries:present-value", 10_000), ("queries:absent-value", 10_000), ("maps:long-keys", 20), ("maps:wide-nodes", 20)],
             exhaustive: Some(!ctx.quick()),
         },
     )
